@@ -21,7 +21,7 @@ import (
 func init() {
 	mon.Register(&mon.Prop{
 		ID: "C13", Race: true, Level: "exploration",
-		Rule: "record lists of length 1..200 with names of printable characters and sequences of 0..300000 letters (incl. the boundary lengths 65535, 65536, 65537 and single lines of 300000); write direction Build -> Parse, Write -> Read, gzip -> ReadGz; re-layouts by the harness's own writer (wrap width 1..250 or none, blank lines, ';' comment lines, CRLF, gzip); a complete grid of sequence lines of k*4096+d and k*65536+d letters (k 1..4, d -3..3) with LF and CRLF, single and wrapped; streaming: ParseConcurrent in a harness goroutine with channel capacities {0,1,2,7,64,1000}, PRNG-stalled consumers, an order-stress series (50..300 short records, capacities 0..8, a consumer spinning 0..3000 iterations per record) and a reader that returns 1..k bytes per call (sometimes data together with EOF), under the race detector; non-trivial = list with >= 2 records or a sequence longer than one line; distinct by hash of the laid-out text",
+		Rule: "record lists of length 1..200 with names of printable characters (one in 60: a merged defline of 4..65 KiB) and sequences of 0..300000 letters (incl. the boundary lengths 65535, 65536, 65537 and single lines of 300000); write direction Build -> Parse, Write -> Read, gzip -> ReadGz; re-layouts by the harness's own writer (wrap width 1..250 or none, blank lines, ';' comment lines, CRLF, gzip); a complete grid of sequence lines of k*4096+d and k*65536+d letters (k 1..4, d -3..3) with LF and CRLF, single and wrapped; streaming: ParseConcurrent in a harness goroutine with channel capacities {0,1,2,7,64,1000}, PRNG-stalled consumers, an order-stress series (50..300 short records, capacities 0..8, a consumer spinning 0..3000 iterations per record) and a reader that returns 1..k bytes per call (sometimes data together with EOF), under the race detector; non-trivial = list with >= 2 records or a sequence longer than one line; distinct by hash of the laid-out text",
 		Assumptions: []string{
 			"oracle: the input list; closed-exactly-once is decided without blocking after the producer has returned (an open, empty channel whose producer is gone was never closed; a second close or a send after close panics in the harness goroutine and is recorded)",
 			"a wall-clock watchdog per streaming case (120 s) only yields inconclusive",
@@ -82,7 +82,17 @@ func randFastaList(r *rand.Rand, big bool) []fasta.Fasta {
 		if r.Intn(4) == 0 {
 			alpha = "ACDEFGHIKLMNPQRSTVWY*acgt-"
 		}
-		out = append(out, fasta.Fasta{Name: fastaName(r), Sequence: randString(r, alpha, L)})
+		name := fastaName(r)
+		if r.Intn(60) == 0 {
+			// a merged defline as in NCBI nr or UniRef: many source deflines joined with " >", kilobytes long
+			var sb strings.Builder
+			for target := []int{4000 + r.Intn(200), 5000 + r.Intn(20000), 65400 + r.Intn(300)}[r.Intn(3)]; sb.Len() < target; {
+				sb.WriteString(fastaName(r))
+				sb.WriteString(" >")
+			}
+			name = sb.String() + "x"
+		}
+		out = append(out, fasta.Fasta{Name: name, Sequence: randString(r, alpha, L)})
 	}
 	return out
 }
